@@ -15,7 +15,7 @@
 (* `at` is the number of stream bytes consumed when the request completed  *)
 (* (0 = not complete): the stream byte that triggers the reply (C11).      *)
 (***************************************************************************)
-EXTENDS Integers, Sequences
+EXTENDS Integers, Sequences, SequencesExt
 
 SP == 32
 CR == 13
@@ -67,18 +67,18 @@ StrictStep(st, c) ==
       [] st = "EOL3"   -> IF c = LF THEN "FSTART" ELSE "FAIL"
       [] OTHER -> st
 
-(* run from byte index i (1-based) to the end; stop early at CONTENT/FAIL *)
-RECURSIVE LooseRun(_, _, _)
-LooseRun(s, i, st) ==
-    IF st = "CONTENT" THEN [ st |-> st, at |-> i - 1 ]
-    ELSE IF st = "FAIL" \/ i > Len(s) THEN [ st |-> st, at |-> 0 ]
-    ELSE LooseRun(s, i + 1, LooseStep(st, s[i]))
+(* run from byte index i (1-based) to the end; CONTENT and FAIL are absorbing. *)
+(* A left fold (evaluated iteratively by TLC): [st, at] with at the index of   *)
+(* the byte that completed the request.                                         *)
+LooseRun(s, i, st0) ==
+    FoldLeft(LAMBDA a, k : IF a.st = "CONTENT" \/ a.st = "FAIL" THEN a
+                           ELSE LET n == LooseStep(a.st, s[k]) IN [ st |-> n, at |-> IF n = "CONTENT" THEN k ELSE 0 ],
+             [ st |-> st0, at |-> 0 ], [ j \in 1..(Len(s) - i + 1) |-> j + i - 1 ])
 
-RECURSIVE StrictRun(_, _, _)
-StrictRun(s, i, st) ==
-    IF st = "CONTENT" THEN [ st |-> st, at |-> i - 1 ]
-    ELSE IF st = "FAIL" \/ i > Len(s) THEN [ st |-> st, at |-> 0 ]
-    ELSE StrictRun(s, i + 1, StrictStep(st, s[i]))
+StrictRun(s, i, st0) ==
+    FoldLeft(LAMBDA a, k : IF a.st = "CONTENT" \/ a.st = "FAIL" THEN a
+                           ELSE LET n == StrictStep(a.st, s[k]) IN [ st |-> n, at |-> IF n = "CONTENT" THEN k ELSE 0 ],
+             [ st |-> st0, at |-> 0 ], [ j \in 1..(Len(s) - i + 1) |-> j + i - 1 ])
 
 (* n = length of the method (the signature is method SP "/") *)
 HttpLoose(s, n)  == LooseRun(s, n + 1, "SPACE")
